@@ -47,7 +47,10 @@ func diffRange(known string, diffs []diffmatchpatch.Diff) (start, end int) {
 
 func docDiff(id string, doc1 *indexedDocument, doc1Start, doc1End int, doc2 *indexedDocument, doc2Start, doc2End int) []diffmatchpatch.Diff {
 	chars1 := doc1.runes[doc1Start:doc1End]
-	chars2 := doc2.runes[doc2Start:doc2End]
+	// go-diff appends in place to sub-slices of its arguments (diffHalfMatchI).
+	// doc2 is a corpus document shared by all concurrent Match calls, so the
+	// library gets a private copy of its runes.
+	chars2 := append([]rune(nil), doc2.runes[doc2Start:doc2End]...)
 
 	dmp := diffmatchpatch.New()
 	if verifOn {
